@@ -747,7 +747,9 @@ func (w *World) dial(ctx context.Context, peer corebgp.PeerConfig, laddr netip.A
 	if pol != nil {
 		act, lat = pol(req)
 	}
+	w.mu.Lock()
 	rec.Action = act
+	w.mu.Unlock()
 	w.Log.Add("dial", peer.RemoteAddress.String(), -1, "dial", fmt.Sprintf("n=%d action=%d lat=%v", req.N, act, lat))
 	if act == DialReal {
 		return nil, nil, false
